@@ -130,12 +130,16 @@ def run(ctx):
     for inv in mc.violated:
         ctx.violations.append({"clause": "Model:" + inv, "what": mc.out[-1500:], "sites": []})
     scns = scenarios(ctx)
+    import drift
+    drift.with_steps(scns, every=max(1, -(-len(scns) // (600 if ctx.quick else 6000))))
     exe = vlib.build(ctx, "san", ["rec"])["rec"]
     files = streams.run_rec(ctx, exe, scns, "c06")
     execs, events, viols = streams.judge_obs(ctx, files, PROPS)
     streams.attach_replays(ctx, viols, scns)
     ctx.violations += viols
+    acc = drift.check(ctx, files)
     vlib.finish(ctx, "model_checking", {
+        "model_acceptance": acc,
         "states": mc.distinct, "transitions": mc.generated, "traces_validated_against_impl": execs,
         "evaluations": execs, "distinct_nontrivial": len({s.text().split("\n", 1)[1] for s in scns if s.nbytes() > 0}),
         "events_judged": events,
